@@ -20,8 +20,9 @@ TIMEOUT = 3000
 STRICT = os.environ.get("VERIF_C14_STRICT", "") not in ("", "0")
 
 RULE = ("exhaustive small shapes: clean-up of every ordered pair of faces "
-        "over 3 points + 1 isolated point under 3 position layouts x all 16 option subsets (thorough: also every "
-        "triple under all 16 option sets), strips of every pair of faces over 4 points, and over 5 points two of which share a position "
+        "over 3 points + 1 isolated point under 3 position layouts x all 16 option subsets, a seeded 1/8 (thorough 1/2) "
+        "class of the face triples over 4 points under option sets 3, 7, 15 (thorough: also every triple over 3 points "
+        "under all 16 option sets), strips of every pair of faces over 4 points, and over 5 points two of which share a position "
         "(attribute seams at one end of an edge), in both modes (thorough: a 1/4 resp. 1/64 class of the triples), deduplication of 4 points under every pair of "
         "point->value maps of two attributes; plus random triangle soups / meshes / point sets with 1..5 attributes over all 11 data types and 1..6 components, "
         "values drawn from small pools (duplicate-heavy) containing +0.0/-0.0, NaNs with equal and different payloads, "
@@ -31,7 +32,8 @@ RULE = ("exhaustive small shapes: clean-up of every ordered pair of faces "
         "degenerate faces and attribute seams that split one or both ends of an edge. Operations: "
         "DeduplicateAttributeValues, DeduplicatePointIds, both, MeshCleanup under all 16 option subsets, "
         "MeshStripifier in both output modes, TriangleSoupMeshBuilder (per-corner and per-face values, two call "
-        "orders), PointCloudBuilder (three ways of setting values, with and without deduplication). Per case: the "
+        "orders), PointCloudBuilder (three ways of setting values, with and without deduplication), reused MeshStripifier / builder "
+        "objects (history ops: the second use is judged like a fresh object's). Per case: the "
         "clauses of C14 are evaluated by the Lean checkers on (input, IMPLEMENTATION's result), the model's result "
         "must equal the implementation's canonical dump, idempotence is observed by running the real operation twice; "
         "a quarter of the random cases runs under ASan/UBSan")
@@ -39,11 +41,12 @@ THEOREM_BACKED = ("dedupValues_preserves / _no_duplicates / _idempotent, dedupPo
                   "_idempotent, dedup_no_identical_points, cleanup_describes / _describes_exact / _survivors_spec / "
                   "_valid / _nothing_unused (all 16 option subsets), strips_describe_unconditional (both modes), "
                   "buildMesh_describes, buildPointCloud_describes — for every valid input of the model; "
-                  "oracle_accepts_dedupValues / _dedupPointIds / _dedupBoth / _buildMesh / _buildPointCloud: the clauses "
-                  "this check demands of the implementation's result are implied by those theorems")
+                  "oracle_accepts_dedupValues / _dedupPointIds / _dedupBoth / _buildMesh / _buildPointCloud / _cleanup / "
+                  "_strips: every clause this check demands of the implementation's result is implied by those "
+                  "theorems; cleanup_idempotent")
 TRUSTED_EXTRA = ["harness/ops_meshtools.cc (calls of the real utilities, canonical dump)",
                  "lean/DracoModel/C14Verify.lean (executable statement of the clauses evaluated on the implementation's "
-                 "result; tied to the theorems for the deduplications and builders, not for clean-up / strips)"]
+                 "result; proved to hold of the model's result for every operation)"]
 CORRESPONDENCE_ONLY = ("that the model equals the real classes (hash containers, in-place buffer compaction, template "
                        "dispatch over data types) is tied by the random cases, not proved")
 EXPLANATION = ("full Lean proofs on the executable model of every clause for the attribute types the deduplication "
@@ -329,8 +332,23 @@ def impl_result(hout):
     return hout.split(" || ")[0]
 
 
+def plain_of(line):
+    """history ops (`stripsh modeA modeB A -- B`, `buildmeshh A -- B`, `buildpch A -- B`: ONE object of the class
+    used for A and then for B) are judged as the plain op on their last input"""
+    t = line.split()
+    if not t or "--" not in t:
+        return None
+    rest = " ".join(t[t.index("--") + 1:])
+    if t[0] == "stripsh":
+        return f"strips {t[2]} {rest}"
+    if t[0] == "buildmeshh":
+        return f"buildmesh {rest}"
+    if t[0] == "buildpch":
+        return f"buildpc {rest}"
+    return None
+
+
 def as_line(case):
-    """history ops (`stripsh modeA modeB A -- B`) are judged as the plain op on their last geometry"""
     return getattr(case, "plain_line", None) or case.op
 
 
@@ -348,7 +366,7 @@ def oracle(hout, case):
     if hout in ("invalid-input", "bad-op"):
         return ("c14-generator-invalid-input", f"the harness refused `{_short(case.op)}`: {hout}")
     parts = hout.split(" || ")
-    dedups = op in ("dedupv", "dedupp", "dedupvp") or op == "buildmesh" or (op == "buildpc" and case.op.split()[2] == "1")
+    dedups = op in ("dedupv", "dedupp", "dedupvp") or op == "buildmesh" or (op == "buildpc" and as_line(case).split()[2] == "1")
     if dedups and hout != "null":
         if len(parts) < 2:
             return ("c14-malformed-output", f"`{_short(case.op)}` -> {_short(hout)}")
@@ -396,6 +414,10 @@ def expect(hout, mout, case):
     h = impl_result(hout)
     if m != h:
         return f"`{_short(case.op)}`: implementation: {_short(h)} | model: {_short(m)}"
+    # theorem cleanup_idempotent: the model's second run returns its input; the implementation's must too
+    if case.op.startswith("cleanup ") and hout.startswith("ok ") and hout.split(" || ")[1:2] != ["="]:
+        return (f"`{_short(case.op)}`: a second MeshCleanup::Cleanup with the same options changed the mesh again "
+                f"(the model is idempotent): first {_short(h)} second {_short(hout.split(' || ', 1)[1] if ' || ' in hout else '?')}")
     return None
 
 
@@ -409,6 +431,7 @@ def strict_tag(mout):
 
 def make_case(line, tags=(), flavour="plain"):
     c = Case(line, oracle=oracle, expect=expect, tags=tags, flavour=flavour)
+    c.plain_line = plain_of(line)
     c.model = model_line(c)
     c.spec = spec
     c.mtag = strict_tag
@@ -523,6 +546,16 @@ def exhaustive_cases(rng, thorough):
             txt = tiny_mesh(faces, 4, atts)
             for bits in range(16):
                 out.append((f"cleanup {bits} {txt}", ("exhaustive_cleanup_2x3", name, f"opts{bits}")))
+    # every triple of faces over 4 points (points 1,2 share the position index, value 3 unused):
+    # quick: a seeded 1/8 class x option sets {3, 7, 15}; thorough: a 1/2 class x the same
+    atts4 = pos_layouts[1][1]()
+    triples4 = all_face_lists(4, 3)
+    k = 2 if thorough else 8
+    off = rng.randrange(k)
+    for faces in triples4[off::k]:
+        txt = tiny_mesh(faces, 4, atts4)
+        for bits in (3, 7, 15):
+            out.append((f"cleanup {bits} {txt}", ("class_cleanup_3x4", f"opts{bits}")))
     if thorough:
         atts = pos_layouts[1][1]()
         for faces in all_face_lists(3, 3):
@@ -652,10 +685,7 @@ def generate(rng, tier):
         if not ga.faces or not gb.faces:
             continue
         ma, mb = rng.randrange(2), rng.randrange(2)
-        c = make_case(f"stripsh {ma} {mb} {ga.to_text()} -- {gb.to_text()}", ("strips_history",))
-        c.plain_line = f"strips {mb} {gb.to_text()}"
-        c.model = model_line(c)
-        cases.append(c)
+        cases.append(make_case(f"stripsh {ma} {mb} {ga.to_text()} -- {gb.to_text()}", ("strips_history",)))
     # --- builders
     for _ in range(150 * mult):
         line, tags = mesh_builder_line(rng, size())
@@ -663,6 +693,17 @@ def generate(rng, tier):
     for _ in range(120 * mult):
         line, tags = cloud_builder_line(rng, size())
         add(line, {"buildpc"} | tags)
+    # --- histories: ONE builder object, Start … Finalize for A, then Start … Finalize for B (the MultiUse pattern of
+    # point_cloud_builder_test.cc); B is judged like the result of a fresh object. A is mostly larger than B and
+    # has other attributes, so that anything kept from the first use would show.
+    for _ in range(60 * mult):
+        la, _t = mesh_builder_line(rng, rng.choice([3, 8, 20, 40]))
+        lb, tags = mesh_builder_line(rng, rng.choice([1, 2, 5, 12, 30]))
+        add(f"buildmeshh {la.split(' ', 1)[1]} -- {lb.split(' ', 1)[1]}", {"buildmesh_history"} | tags)
+    for _ in range(60 * mult):
+        la, _t = cloud_builder_line(rng, rng.choice([3, 8, 20, 40]))
+        lb, tags = cloud_builder_line(rng, rng.choice([1, 2, 5, 12, 30]))
+        add(f"buildpch {la.split(' ', 1)[1]} -- {lb.split(' ', 1)[1]}", {"buildpc_history"} | tags)
     # the smallest failing input is reported first
     cases.sort(key=lambda c: len(c.op))
     return cases
@@ -673,10 +714,5 @@ def replay_cases(lines):
     out = []
     for l in lines:
         for fl in ("plain", "asan"):
-            c = make_case(l, tags=("replay", fl), flavour=fl)
-            t = l.split()
-            if t and t[0] == "stripsh" and "--" in t:
-                c.plain_line = f"strips {t[2]} " + " ".join(t[t.index("--") + 1:])
-                c.model = model_line(c)
-            out.append(c)
+            out.append(make_case(l, tags=("replay", fl), flavour=fl))
     return out
